@@ -3,7 +3,7 @@
 P=$1; L1=${2:-c}; L2=${3:-d}
 for pair in x:$L1 y:$L2; do
   s=${pair%%:*}; t=${pair##*:}
-  src=/tmp/seedout/$P/$P$s; dst=/verif/seeded/$P$t
+  src=${SRC:-/tmp/seedout}/$P/$P$s; dst=/verif/seeded/$P$t
   [ -f $src/patch.diff ] || { echo "missing $src"; continue; }
   mkdir -p $dst; cp $src/patch.diff $src/demo.py $src/meta.json $dst/
   bash /verif/tools/confirm_seed.sh $dst /tmp/seedconfirm
